@@ -77,3 +77,41 @@ for _K in ("AllOf", "AnyOf", "OneOf"):
                      "len(result.elements) == len(elements) and forall(lambda j: result.elements[j] is elements[j], len(elements)))",
              kinds={"elements": "list", "element_type": "class:" + _K}, ghost={"result_fresh_unless": "len(elements) == 1"},
              props=["C06", "C07", "C20", "C01"])
+
+# dict-valued positions: every dict / boolean value is handed to parse_element, so an unsupported keyword in one of them is refused
+_DV = "val_at(schema['{k}'], j)"
+for fn, key in (("_parse_pattern_properties", "patternProperties"), ("_parse_dependencies", "dependencies")):
+    d = f"schema['{key}']"
+    v = _DV.format(k=key)
+    refused = f"exists(lambda j: is_dict({v}) and has_unsupported({v}), len({d}))"
+    contract(PA + fn,
+             requires=f"dict_wf(schema) and has(schema,'{key}') and dict_wf({d}) and {STATE_OK} and "
+                      f"forall(lambda j: is_bool({v}) or isinstance({v}, Element) or is_list({v}) or (dict_wf({v}) and schema_ok({v})), len({d}))",
+             returns=f"is_dict(result) and not ({refused.replace('schema[', 'old(schema)[')})",
+             may_raise=[("SchemaParseError", "True")], modifies=["schema", "state"], kinds={"schema": "dict"}, result_kind="dict",
+             props=["C20", "C10"])
+
+_IT = "schema['items']"
+_ITJ = "schema['items'][j]"
+_SUBJ = f"(is_bool({_ITJ}) or isinstance({_ITJ}, Element) or (dict_wf({_ITJ}) and schema_ok({_ITJ})))"
+_ITEMS_REFUSED = (f"((is_dict({_IT}) and has_unsupported({_IT})) or (is_list({_IT}) and exists(lambda j: is_dict({_ITJ}) and has_unsupported({_ITJ}), len({_IT}))))")
+contract(PA + "_parse_items",
+         requires=f"dict_wf(schema) and {STATE_OK} and (not has(schema,'items') or is_bool({_IT}) or isinstance({_IT}, Element) or (dict_wf({_IT}) and schema_ok({_IT})) or "
+                  f"(is_list({_IT}) and forall(lambda j: {_SUBJ}, len({_IT}))))",
+         returns="not (has(old(schema),'items') and " + _ITEMS_REFUSED.replace("schema[", "old(schema)[") + ")",
+         may_raise=[("SchemaParseError", "True")], modifies=["schema", "state"], kinds={"schema": "dict"},
+         props=["C20", "C10"])
+
+_PV = "val_at(schema['properties'], j)"
+contract(PA + "_parse_properties",
+         requires=f"dict_wf(schema) and {STATE_OK} and (not has(schema,'required') or (is_list(schema['required']) and forall(lambda i: is_str(schema['required'][i]), len(schema['required'])))) and "
+                  f"(not has(schema,'properties') or (dict_wf(schema['properties']) and "
+                  f"forall(lambda j: is_bool({_PV}) or isinstance({_PV}, _Property) or is_list({_PV}) or (dict_wf({_PV}) and schema_ok({_PV})), len(schema['properties']))))",
+         returns="is_dict(result) and not (has(old(schema),'properties') and exists(lambda j: is_dict(" + _PV.replace("schema[", "old(schema)[") + ") and has_unsupported("
+                 + _PV.replace("schema[", "old(schema)[") + "), len(old(schema)['properties'])))",
+         may_raise=[("SchemaParseError", "True")], modifies=["schema", "state"], kinds={"schema": "dict"}, result_kind="dict",
+         props=["C20", "C10"])
+
+contract(PA + "_parse_attribute_name", requires="is_str(name)", returns="is_str(result)", result_kind="str", trusted=True, props=["C12", "C20"],
+         note="character-class mapping over all of Unicode (unicodedata, str methods): total on strings and returns a string; what it returns is decided by the "
+              "bounded C12 enumeration (every code point alone and in context), not by a proof")
